@@ -357,6 +357,10 @@ class CSSStyleSheet(cssutils.stylesheets.StyleSheet):
             # use proper namespace object
             self._namespaces = _Namespaces(parentStyleSheet=self, log=self._log)
             self._cleanNamespaces()
+            # the replaced rules are not part of this sheet anymore
+            for rule in oldCssRules:
+                if rule not in self._cssRules:
+                    rule._parentStyleSheet = None
 
         else:
             # reset
